@@ -40,6 +40,30 @@ def kept_examples(supplied, strip=False, remove_empties=False):
                   'n_distinct_supplied': len(distinct_supplied)}
 
 
+# Documented meaning of the Size constants (comments of class Size): do_all
+# "use all examples up to this many" (default 100); do_all_exceptions "add in
+# all failures up to this many" (default 4000) - and against the empty
+# expression list of the first pass every example is a failure ("If the list
+# is empty, all strings are candidates to be returned").  So every supplied
+# example is used unless there are more DISTINCT kept examples than both.
+DEFAULT_DO_ALL = 100
+DEFAULT_DO_ALL_EXCEPTIONS = 4000
+
+
+def sampling_applies(n_distinct, size=None, do_all=DEFAULT_DO_ALL,
+                     do_all_exceptions=DEFAULT_DO_ALL_EXCEPTIONS):
+    """May rexpy work on a sample of the examples?  size: None (defaults),
+    0 / False ("don't use sampling"), or a (do_all, do_all_exceptions) pair.
+    When this is False "the reported number of examples equals the number
+    supplied" is a must; when True it is unspecified (n_examples is then
+    documented as the number of examples *used* by rexpy)."""
+    if size is not None and not size:
+        return False
+    if isinstance(size, (tuple, list)):
+        do_all, do_all_exceptions = size
+    return n_distinct > max(do_all, do_all_exceptions)
+
+
 def anchored(rex):
     return '%s%s%s' % ('' if rex.startswith('^') else '^', rex,
                        '' if rex.endswith('$') else '$')
